@@ -13,7 +13,7 @@ import (
 func init() {
 	register(&Prop{
 		ID:         "C02",
-		Decided:    "(1) every store to Watermark.currentWatermark is reachable only under new>old, to maxEventTime only under zero-or-greater, lastSentWatermark only on the successful-send arm with the value sent; (2) every candidate watermark is X.Add(-maxOutOfOrderness) with X the event time, maxEventTime or (idle branch) now; (3) in UpdateEventTime no store to maxEventTime/currentWatermark is reachable once eventTime.After(now+maxOutOfOrderness+24h); (3b) every event that passes UpdateEventTime refreshes the idle clock lastEventTime with time.Now(); (4) IsEventTimeLate is exactly 'watermark non-zero and ts<watermark'; (5) the watermark handlers of tumbling/sliding/session windows extract or expire only under watermark>=end; (6) UpdateEventTime is reached only with a usable timestamp; (7) rows are discarded in the event-time Add only when late or without timestamp; (8) a late re-delivery keeps the identity of the fired window: the late-update function is called with the slot stored in the fired-window entry that Contains the event, every row it emits (snapshot copies and late rows) carries that slot, and window_id is computed from the Start/End of the batch slot; (9) an allowance entry is removed only when watermark>=closeTime, closeTime=end.Add(AllowedLateness), and sliding closeExpiredWindows does not write the row buffer; (10) lock discipline of Watermark and of the three windows. Also: no row is stored and the watermark is not fed on a path where Watermark.IsFarFuture(ts) is true (all three time-based Adds); the idle clock is not refreshed for a timestamp beyond the ceiling; a late session row is appended only to a fired session of its own group and fired sessions are kept under keys unique per firing. Also: no comparison in the window's methods has a buffered row's timestamp on one side and a time derived from the lateness allowance (closeTime, AllowedLateness) on the other: which rows belong to an expired window is decided by its interval alone (shape/row-eviction-ignores-lateness).",
+		Decided:    "(1) every store to Watermark.currentWatermark is reachable only under new>old, to maxEventTime only under zero-or-greater, lastSentWatermark only on the successful-send arm with the value sent; (2) every candidate watermark is X.Add(-maxOutOfOrderness) with X the event time, maxEventTime or (idle branch) now; (3) in UpdateEventTime no store to maxEventTime/currentWatermark is reachable once eventTime.After(now+maxOutOfOrderness+24h); (3b) every event that passes UpdateEventTime refreshes the idle clock lastEventTime with time.Now(); (4) IsEventTimeLate is exactly 'watermark non-zero and ts<watermark'; (5) the watermark handlers of tumbling/sliding/session windows extract or expire only under watermark>=end; (6) UpdateEventTime is reached only with a usable timestamp; (7) rows are discarded in the event-time Add only when late or without timestamp; (8) a late re-delivery keeps the identity of the fired window: the late-update function is called with the slot stored in the fired-window entry that Contains the event, every row it emits (snapshot copies and late rows) carries that slot, and window_id is computed from the Start/End of the batch slot; (9) an allowance entry is removed only when watermark>=closeTime, closeTime=end.Add(AllowedLateness), and sliding closeExpiredWindows does not write the row buffer; (10) lock discipline of Watermark and of the three windows. Also: no row is stored and the watermark is not fed on a path where Watermark.IsFarFuture(ts) is true (all three time-based Adds); the idle clock is not refreshed for a timestamp beyond the ceiling; a late session row is appended only to a fired session of its own group and fired sessions are kept under keys unique per firing. Also: no comparison in the window's methods has a buffered row's timestamp on one side and a time derived from the lateness allowance (closeTime, AllowedLateness) on the other: which rows belong to an expired window is decided by its interval alone (shape/row-eviction-ignores-lateness). Also: the interval bookkeeping rules of C01/C08 (the current interval only moves by NextSlot(), the arrival-ordered buffer is never read by position) run for this property too: an interval that is jumped over strands its on-time rows.",
 		NotDecided: "observability order across the watermark channel (no result before the watermark passed, as a schedule property), idle-timeout wall-clock behaviour, that the contents of a late re-delivery are previous+event, bursts faster than the consumer.",
 		Run:        runC02,
 	})
